@@ -402,7 +402,16 @@ func (l c15) Exec(env *core.Env) *core.Result {
 						errs[i] = c.Set(ctx, v.url, v.bundle)
 					})
 				}
-				rt.WaitUntil("pset", func() bool { return done == 2 }, time.Time{})
+				// ... and a reader of the first URL runs alongside (what it gets - a miss, the old bundle, the new one -
+				// is its own business here; a read must not change what the cache holds)
+				readerDone := false
+				sim.Go("concurrent-reader", func() {
+					defer func() { readerDone = true }()
+					if c, err := crl.NewFileCache(root); err == nil {
+						c.Get(ctx, va.url)
+					}
+				})
+				rt.WaitUntil("pset", func() bool { return done == 2 && readerDone }, time.Time{})
 				for i, v := range []*c15Val{va, vb} {
 					e := model[v.url]
 					st := c15Step{Op: "concurrent-set", URL: short(v.url), Val: v.id, At: at}
